@@ -336,6 +336,7 @@ def run_tree_regression(arg, taxa):
             schema="nexus",
             tree_offset=0,
             preserve_underscores=True,
+            rooting="force-rooted",
             taxon_namespace=taxon_namespace,
         )
     else:
@@ -344,6 +345,7 @@ def run_tree_regression(arg, taxa):
             schema="newick",
             tree_offset=0,
             preserve_underscores=True,
+            rooting="force-rooted",
             taxon_namespace=taxon_namespace,
         )
     tree.resolve_polytomies(update_bipartitions=True)
